@@ -161,6 +161,17 @@ def gen_kernels():
     if old != txt:
         with open(path, "w") as f:
             f.write(txt)
+    import pytrans_int
+    try:
+        txt = pytrans_int.generate(REPO)
+    except pytrans_int.Unsupported as ex:
+        txt = ("(* GENERATED: harness/pytrans_int.py could not translate the current source: %s *)\n"
+               "Definition translation_failed : True := untranslatable_source.\n" % str(ex).replace("*)", "* )"))
+    path = os.path.join(COQ, "Gen", "IntKernelsGen.v")
+    old = open(path).read() if os.path.exists(path) else None
+    if old != txt:
+        with open(path, "w") as f:
+            f.write(txt)
 
 
 def ensure_makefile():
